@@ -138,6 +138,8 @@ def check_engines(ctx, progs, rule="block-eq", families=("chacha", "salsa")):
         if P is None:
             continue
 
+        passed = {}
+
         def fnof(name):
             f = P.fn_opt(mod + "::" + name)
             if f is None:
@@ -160,6 +162,7 @@ def check_engines(ctx, progs, rule="block-eq", families=("chacha", "salsa")):
                 ctx.fail(rule, "%s::%s@%s:%s" % (mod, name, cfg, inst), "%s::%s could not be evaluated to a value graph for this input shape (%s: %s): it panics, reads outside its buffers or uses a construct the evaluator does not model" % (mod, name, type(e).__name__, str(e)[:200]), where=fn.where(), key=key + ":eval")
                 return
             n += 1
+            passed.setdefault(name, []).append(msg is None)
             ctx.check(msg is None, rule, "%s::%s@%s:%s" % (mod, name, cfg, inst), okmsg + " (%d graph nodes)" % len(B.defs),
                       "%s::%s (%s, %s) is not the specified function: %s" % (mod, name, cfg, inst, msg), where=fn.where(), key=key)
 
@@ -225,6 +228,14 @@ def check_engines(ctx, progs, rule="block-eq", families=("chacha", "salsa")):
                     return _diff(B, words_of_state(M, st, layout), want)
                 run("init", "key%d-nonce%d" % (kl, nl), body, "init(key[%d], nonce[%d]) == the specification's initial matrix" % (kl, nl))
 
+        # the initial matrix is decided as a value graph for every admitted (key, nonce) length: the MIR-pattern rules on
+        # the same function (keydep / nonce-layout recognise one way of writing the loads) are then cross-checks only
+        want_inits = 2 * len(nls)
+        if len(passed.get("init", [])) == want_inits and all(passed["init"]):
+            why = "%s::init equals the specification's initial matrix for all %d (key, nonce) length pairs (block-eq)" % (mod, want_inits)
+            short = mod.split("::State")[0]
+            for pre in ("keydep:%s::State" % short, "nonce-layout:%s" % ("reference" if "reference" in short else "sse2" if "sse2" in short else "salsa")):
+                ctx.subsume(pre, why)
         # ---- counter
         if fam == "chacha":
             def body(B, M, fn):
